@@ -444,6 +444,8 @@ def c02_rf26(run):
     rf_fold.rf41(run)
     rf_fold.rf48(run)
     rf_inline.rf51(run)
+    rf_fold.rf86(run)
+    rf_fold.rf87(run)
 
 
 PLAN = {
